@@ -226,6 +226,8 @@ func runHistory(o *options, idx int) sums {
 				h.cid[k] = ecs.ComponentID[Tag](h.w)
 			case kChild:
 				h.cid[k] = ecs.ComponentID[Child](h.w)
+			case kArr:
+				h.cid[k] = ecs.ComponentID[ArrComp](h.w)
 			}
 		}
 	})
